@@ -544,6 +544,11 @@ class Stage:
                     raise Exception("You attempted to set the value of a non-parameter. Did you mean ocp.set_initial()? Got " + str(parameter))
                 self._param_vals[parameter] = value
         for_all_primitives(parameter, value, action, "First argument to set_value must be a parameter or a simple concatenation of parameters", rhs_type=DM)
+        if self.master is not None and self.master.is_transcribed:
+            # A parameter that sets the horizon moves the time grid: guesses given as expressions of time are evaluated on it
+            horizon = [e for e in (self._T, self._t0) if isinstance(e, MX)]
+            if horizon and depends_on(vvcat(horizon), vvcat(ca.symvar(MX(parameter)))):
+                self._method.set_initial(self._augmented, self.master._method, self._initial)
 
 
     def set_initial(self, var, value, priority=True):
